@@ -599,6 +599,7 @@ fn main() {
 				match vcommon::monitor::catch(|| vcommon::scenarios::compaction_reorg_scenario_opts(seed, depth, &dir, headers_first, Some(at))) {
 					Ok(Ok(st)) => {
 						run.count("compaction_scenarios_with_pairs_created_at_the_horizon_block", 1);
+						run.count("compaction_scenarios.old_outputs_whose_sibling_was_pruned_before", st.half_pairs_spent as u64);
 						run.count("block_deliveries_checked", st.blocks_delivered);
 						run.eval(&format!("compaction_scenario;pairs_at_horizon{:+};depth={};headers_first={}", at, depth, headers_first), true);
 					}
@@ -638,6 +639,11 @@ fn main() {
 		run.require("compactions_that_moved_tail", compactions.load(Ordering::SeqCst), 2);
 		run.require("compaction_at_spending_head_scenarios", run.counter("compaction_at_spending_head_scenarios"), run.tier.pick(2, 8));
 		run.require("compaction scenarios with the spent pairs created at the horizon block", run.counter("compaction_scenarios_with_pairs_created_at_the_horizon_block"), run.tier.pick(3, 6));
+		run.require(
+			"old outputs spent inside the horizon window whose sibling was pruned long before",
+			run.counter("compaction_scenarios.old_outputs_whose_sibling_was_pruned_before"),
+			run.tier.pick(1, 3),
+		);
 	}
 	drop(m);
 	drop(sc);
